@@ -45,6 +45,8 @@ CONDS = {
     # these stay valid when A is defined empty (unary + / -): "-DA=" must not behave like "-DA"
     "A + 0": lambda t: _val0(t, "A"),
     "A - 1": lambda t: _val0(t, "A") - 1,
+    # the same macro named twice in one expression (each occurrence is expanded)
+    "A == 1 || A == 2": lambda t: int(_val(t, "A") in (1, 2)),
 }
 
 
